@@ -13,6 +13,7 @@ import (
 
 	"hop.computer/hop/certs"
 	"hop.computer/hop/keys"
+	"hop.computer/hop/pkg/vt"
 )
 
 // Hop Noise XX pattern
@@ -755,6 +756,9 @@ func (hs *HandshakeState) writePQClientRequestHidden(b []byte, serverKEMPublicKe
 
 	// Timestamp
 	now := time.Now().Unix()
+	if vt.On {
+		now += verifClientClockSkew()
+	}
 	timeBytes := make([]byte, 8)
 	binary.BigEndian.PutUint64(timeBytes, uint64(now))
 	hs.duplex.Encrypt(b, timeBytes[:])
